@@ -18,7 +18,7 @@ META = {
                     "boxes are registered through the public addObstruction(lo, hi) with lo <= hi component-wise"],
 }
 REQUIRED_REACH = ['path_planning/pathplanner.py:RRTStar.obstruction', 'path_planning/pathplanner.py:RRTStar.addObstruction']
-REQUIRED_CLAUSES = ["lattice", "float", "sets"]
+REQUIRED_CLAUSES = ["lattice", "float", "sets", "instances"]
 
 PTS = np.array(list(itertools.product(range(-3, 4), repeat=3)), dtype=np.int64)          # 343
 _PAIRS = [(l, h) for l in range(-2, 3) for h in range(l, 3)]                              # 15
@@ -165,6 +165,28 @@ def run_shard(spec, ctx):
             ctx.violation("sets", ("FN" if exp else "FP") + "/set", {"got": bool(got), "expected": exp},
                           {"kind": "set", "a": PTS[ai].tolist(), "b": PTS[bi].tolist(),
                            "boxes": [BOXES[i].tolist() for i in ids]})
+    # (E) several planners alive at once, each with its own boxes registered through addObstruction on a freshly constructed
+    #     planner (registrations interleaved): one planner's answer depends on ITS boxes only
+    for _ in range(60 * scale):
+        npl = int(rng.integers(2, 5))
+        pls = [RRTStar(tm()) for _ in range(npl)]
+        sets = [[int(x) for x in rng.integers(0, len(BOXES), int(rng.integers(0, 4)))] for _ in range(npl)]
+        for rnd in range(3):
+            for pl, ids in zip(pls, sets):
+                if rnd < len(ids):
+                    bx = BOXES[ids[rnd]]
+                    pl.addObstruction([float(x) for x in bx[0]], [float(x) for x in bx[1]])
+        for pl, ids in zip(pls, sets):
+            for _q in range(6):
+                ai, bi = int(rng.integers(343)), int(rng.integers(343))
+                got = pl.obstruction(nodes[ai], nodes[bi])
+                exp = any(bool(segbox.hit_lattice(PTS[ai], PTS[bi], BOXES[i][0], BOXES[i][1])) for i in ids)
+                ctx.clause("instances")
+                ctx.case({"planner_sets": sets, "which": ids, "a": ai, "b": bi}, len(ids) >= 1)
+                if bool(got) != exp:
+                    ctx.violation("instances", ("FN" if exp else "FP") + "/several_planners", {"got": bool(got), "expected": exp},
+                                  {"kind": "instances", "a": PTS[ai].tolist(), "b": PTS[bi].tolist(), "own_boxes": [BOXES[i].tolist() for i in ids],
+                                   "all_sets": [[BOXES[i].tolist() for i in s_] for s_ in sets]})
     # (D) float cases, robust ones only
     nkept = 0
     for _ in range(3000 * scale):
